@@ -22,29 +22,18 @@ pub struct Enumerated {
 }
 
 fn i_e_into_structure(id: u64, class: TagClass, inner: i64) -> structure::StructureTag {
-    let mut count = 0u8;
-    let mut rem: i64 = if inner >= 0 { inner } else { -inner };
-    while {
-        count += 1;
-        rem >>= 8;
-        rem > 0
-    } {}
-
-    // Ensure that the most significant bit is always 0, because BER uses signed numbers.
-    // We shift away all but the most significant bit and check that.
+    // BER integers are two's complement, encoded in the smallest possible number of octets:
+    // a leading octet is redundant if it only repeats the sign bit of the octet that follows.
     // See #21
-    if inner > 0 && inner >> ((8 * count) - 1) == 1 {
-        count += 1;
-    }
-
-    let mut count = count as usize;
-    let mut out: Vec<u8> = Vec::with_capacity(count);
     let repr = inner.to_be_bytes();
-    if count > repr.len() {
-        out.push(0);
-        count -= 1;
+    let mut start = 0;
+    while start < repr.len() - 1
+        && ((repr[start] == 0x00 && repr[start + 1] & 0x80 == 0)
+            || (repr[start] == 0xFF && repr[start + 1] & 0x80 != 0))
+    {
+        start += 1;
     }
-    out.extend_from_slice(&repr[repr.len() - count..]);
+    let out: Vec<u8> = repr[start..].to_vec();
 
     structure::StructureTag {
         id,
